@@ -254,7 +254,9 @@ def nt_tv(labels):
 
 
 # ---------------------------------------------------------------- 4. point_along
-T_SPECIAL = [0.0, 1e-9, -1e-9, 6.0, -6.0, 1.0, -1.0, 1e-4, -1e-4]
+# (0.05 .. 0.13: short walks, where a series expansion of the distance would still be off
+# by 1e-4 relative)
+T_SPECIAL = [0.0, 1e-9, -1e-9, 6.0, -6.0, 1.0, -1.0, 1e-4, -1e-4, 0.1, -0.12, 0.05, 0.13, -0.08]
 
 
 @st.composite
